@@ -13,7 +13,9 @@ vars == <<base, prog, nb>>
 
 Bases ==
     CASE Camp = "locals"  -> {[types |-> "plain", locals |-> l, customs |-> 0, comp |-> c] : l \in {"none", "a", "aa", "ab"}, c \in BOOLEAN}
-      [] Camp = "build"   -> {[types |-> t, locals |-> "a", customs |-> 0] : t \in {"plain", "rec"}}
+      [] Camp = "build"   -> {[types |-> t, locals |-> "a", customs |-> 0, comp |-> FALSE] : t \in {"plain", "rec"}}
+                              \* the module inside a component: FunctionBuilder::finish_component
+                              \cup {[types |-> "plain", locals |-> "a", customs |-> 0, comp |-> TRUE]}
       [] Camp = "types"   -> {[types |-> t, locals |-> "none", customs |-> 0] : t \in {"plain", "rec"}}
       [] Camp = "adds"    -> {[types |-> "plain", locals |-> "none", customs |-> 1]}
       [] Camp = "customs" -> {[types |-> "plain", locals |-> "none", customs |-> c, cpos |-> "end"] : c \in 0 .. 3}
@@ -76,8 +78,9 @@ CustOps ==
   \cup {[op |-> "cust_mod", id |-> i, bytes |-> "bb0" \o ToString(nb)] : i \in 0 .. 3}
 
 Ops == CASE Camp = "locals" -> (IF base.comp THEN CompLocalOps ELSE LocalOps)
-         [] Camp = "build" -> {o \in BuildOps : ValidBuild(o)} \cup ReplaceOps \cup {o \in LocalOps : o.f = 2 /\ o.via = "modifier" /\ o.ty = "f64"}
-                              \cup {[op |-> "conv", f |-> 2]}
+         [] Camp = "build" -> IF base.comp THEN {o \in BuildOps : ValidBuild(o)} \cup {o \in CompLocalOps : o.f = 2 /\ o.via = "iter" /\ o.ty = "v128"}
+                              ELSE {o \in BuildOps : ValidBuild(o)} \cup ReplaceOps \cup {o \in LocalOps : o.f = 2 /\ o.via = "modifier" /\ o.ty = "f64"}
+                                   \cup {[op |-> "conv", f |-> 2]}
          [] Camp = "types" -> TypeOps
          [] Camp = "adds" -> AddOps
          [] Camp = "customs" -> CustOps
@@ -87,7 +90,10 @@ Step == /\ Len(prog) < MaxOps
         /\ \E o \in Ops :
              /\ ~(o.op = "build" /\ o.via = "replace" /\ \E i \in DOMAIN prog : prog[i].op = "build" /\ prog[i].via = "replace")
              \* keep the pair space of the build campaign small: the second build is from a reduced set
-             /\ (Camp = "build" /\ Len(prog) >= 1 /\ o.op = "build") => (o.locals = <<"i64", "i64">> \/ o.via = "replace")
+             /\ (Camp = "build" /\ Len(prog) >= 1 /\ o.op = "build") =>
+                    \/ o.via = "replace"
+                    \/ (o.locals = <<"i64", "i64">> /\ o.params = <<>> /\ o.name = ""
+                        /\ o.body \in {<<>>, <<"block", "end">>, <<"call_0">>, <<"i32_const_7">>})
              \* `call 0` designates the import: its index legitimately changes once that import is replaced
              /\ ~(o.op = "build" /\ \E i \in DOMAIN o.body : o.body[i] = "call_0"
                   /\ (o.via = "replace" \/ \E j \in DOMAIN prog : prog[j].op = "build" /\ prog[j].via = "replace"))
